@@ -1,5 +1,5 @@
 import AnySyncModel.Core.Wire
-import AnySyncModel.Handshake.Model
+import AnySyncModel.Handshake.Spec
 /-! line protocol for area `handshake` (C14)
 
   sess role=<in|out> verify=<0|1> acct=<n> lp=<id> rp=<id> ver=<n> compat=<n,n|-> client=<n[!]>
@@ -146,21 +146,6 @@ def sess (toks : List String) : String :=
     | none =>
       s!"{showVerdict " " o.verdict} wrote={showFrames o.wrote} closed={showBool o.closed} maxread={o.maxReq}"
   | _, _, _, _ => "bad-op"
-
-/-- toy wire encoding for `pair`: one payload byte naming the frame -/
-def toyEnc : Encoder := fun who f =>
-  match f with
-  | .cred => [1, 1, 0, 0, 0, (match who with | .out => 0xA0 | .inc => 0xA1)]
-  | .ack e => [2, 1, 0, 0, 0, UInt8.ofNat e]
-
-def toyDec (oc ic : Cfg) : Decoder := fun tp p =>
-  match p with
-  | [b] =>
-    if tp = 1 then
-      (if b = 0xA0 then .cred (makeCred oc) else if b = 0xA1 then .cred (makeCred ic) else .bad .proto)
-    else if tp = 2 then .ack (some b.toNat)
-    else .bad .proto
-  | _ => .bad .proto
 
 def splitBar (toks : List String) : List String × List String :=
   (toks.takeWhile (· ≠ "|"), (toks.dropWhile (· ≠ "|")).drop 1)
